@@ -459,22 +459,32 @@ class _DataCompiler:
         cache_key = "data_file_" + file_name
         try:
             cached_file = self._new_cache[cache_key]
+            already_processed = True
         except KeyError:
+            already_processed = False
             try:
                 cached_file = self._old_cache[cache_key]
             except KeyError:
                 cached_file = None
         try:
-            file_yaml = self._render(file_path)
-            file_version = version_for_str(file_yaml)
-            # If the file has not changed, we can use the cached data. We still
-            # have to process the included files because they might have
-            # changed.
-            if cached_file and (file_version == cached_file.version):
+            if already_processed:
+                # The file has already been read while compiling the data for
+                # this call. We use that result instead of reading the file
+                # again, so that a single call never sees two different
+                # versions of the same file.
+                file_version = cached_file.version
                 cache_valid = True
             else:
-                cache_valid = False
-                file_data = yaml.safe_load(file_yaml)
+                file_yaml = self._render(file_path)
+                file_version = version_for_str(file_yaml)
+                # If the file has not changed, we can use the cached data. We
+                # still have to process the included files because they might
+                # have changed.
+                if cached_file and (file_version == cached_file.version):
+                    cache_valid = True
+                else:
+                    cache_valid = False
+                    file_data = yaml.safe_load(file_yaml)
         except Exception as err:
             raise RuntimeError(
                 f"Error processing data file {file_name}."
